@@ -381,3 +381,79 @@ Section Concurrent.
     exact (outcome_exactly_once (md_r (D j)) (md_log (D j)) (md_k (D j)) (md_sq (D j)) (md_uid (D j)) Hk Hinj (proj j gs) Pv).
   Qed.
 End Concurrent.
+
+(* ---------- stray responses: unknown or already answered numbers, and responses of another type ---------- *)
+(* a response whose number is not stored (unsolicited, duplicate, late), or which is of another type than the request stored under
+   its number, changes nothing and is handed to the hook without any message's identity (log 0) *)
+Definition stray (s : hstate) (r : resp) : Prop :=
+  match dget (rs_seq r) (c_store (h_corr s)) with
+  | None => True
+  | Some e => answers r (e_msg e) = false
+  end.
+
+Lemma stray_response_noop s r mid :
+  stray s r ->
+  fst (handle_response s r mid) = s
+  /\ forall o, In o (snd (handle_response s r mid)) -> match o with HResp _ l _ _ => l = 0 | HSendError _ => False | _ => True end.
+Proof.
+  intros Hs. unfold handle_response.
+  destruct (negb (mem (rs_cmd r) handled_response_commands)); [split; [reflexivity|intros o [<-|[]]; exact I]|].
+  destruct (if rs_cmd r =? SmppCommand_GENERIC_NACK then Ok None
+            else match lookup (rs_cmd r) response_command_map with Some c => Ok (Some c) | None => Err EXN_KeyError end) as [oc|e0];
+    [|split; [reflexivity|intros o [<-|[]]; exact I]].
+  assert (get_pop (h_corr s) r = (h_corr s, None)) as ->.
+  { unfold get_pop, stray in *. destruct (dget (rs_seq r) (c_store (h_corr s))) as [e|]; [rewrite Hs; reflexivity|reflexivity]. }
+  cbn [fst snd]. split; [destruct s; reflexivity|]. intros o [<-|[]]. reflexivity.
+Qed.
+
+Section Stray.
+  Variable n : nat.
+  Variable D : nat -> mdesc.
+  Hypothesis D_ok : forall j, (j < n)%nat ->
+    (2 <= md_k (D j))%nat /\ 0 <= md_r (D j) < 65536
+    /\ forall a b, (a < md_k (D j))%nat -> (b < md_k (D j))%nat -> md_sq (D j) a = md_sq (D j) b -> a = b.
+  Hypothesis D_sep : forall i j, (i < n)%nat -> (j < n)%nat -> i <> j ->
+    forall a b, (a < md_k (D i))%nat -> (b < md_k (D j))%nat -> md_sq (D i) a <> md_sq (D j) b.
+
+  (* the events of the messages, with stray responses anywhere in between *)
+  Inductive xev := XMsg (e : gev) | XStray (r : resp) (mid : Z).
+  Definition xconc (x : xev) : hevent := match x with XMsg e => gconc D e | XStray r mid => HResponse r mid end.
+
+  Fixpoint xvalid (s : hstate) Q LR (xs : list xev) : Prop :=
+    match xs with
+    | [] => True
+    | XMsg e :: t => genabled n D Q LR e /\ xvalid (fst (hstep s (gconc D e))) (fst (gafter Q LR e)) (snd (gafter Q LR e)) t
+    | XStray r mid :: t => stray s r /\ xvalid s Q LR t
+    end.
+  Fixpoint xmsgs (xs : list xev) : list gev := match xs with [] => [] | XMsg e :: t => e :: xmsgs t | XStray _ _ :: t => xmsgs t end.
+  (* outputs at the message events only *)
+  Fixpoint xpick {A} (xs : list xev) (outs : list A) : list A :=
+    match xs, outs with
+    | XMsg _ :: t, o :: os => o :: xpick t os
+    | XStray _ _ :: t, _ :: os => xpick t os
+    | _, _ => []
+    end.
+  Fixpoint xstray_outs {A} (xs : list xev) (outs : list A) : list A :=
+    match xs, outs with
+    | XMsg _ :: t, _ :: os => xstray_outs t os
+    | XStray _ _ :: t, o :: os => o :: xstray_outs t os
+    | _, _ => []
+    end.
+
+  Theorem stray_responses_change_nothing : forall xs s Q LR,
+    MI n D s Q LR -> xvalid s Q LR xs ->
+    gvalid n D Q LR (xmsgs xs)
+    /\ xpick xs (hrun_each s (map xconc xs)) = gspec D Q LR (xmsgs xs)
+    /\ forall outs o, In outs (xstray_outs xs (hrun_each s (map xconc xs))) -> In o outs ->
+         match o with HResp _ l _ _ => l = 0 | HSendError _ => False | _ => True end.
+  Proof.
+    induction xs as [|x t IH]; intros s Q LR HM Hv; [split; [exact I|split; [reflexivity|intros outs o []]]|].
+    destruct x as [e|r mid]; cbn [xvalid] in Hv; destruct Hv as [Hen Hv]; cbn [map xmsgs hrun_each xconc].
+    - destruct (g_step n D D_ok D_sep s Q LR e HM Hen) as (s' & Hs & HM'). rewrite Hs in Hv |- *. cbn [fst snd] in *.
+      destruct (IH s' _ _ HM' Hv) as (I1 & I2 & I3).
+      split; [cbn [gvalid]; split; assumption|]. split; [cbn [xpick gspec]; f_equal; exact I2|]. cbn [xstray_outs]. exact I3.
+    - destruct (stray_response_noop s r mid Hen) as [E1 E2]. cbn [hstep]. rewrite E1.
+      destruct (IH s Q LR HM Hv) as (I1 & I2 & I3).
+      split; [exact I1|]. split; [cbn [xpick]; exact I2|]. cbn [xstray_outs]. intros outs o [<-|Hin] Ho; [exact (E2 o Ho)|exact (I3 outs o Hin Ho)].
+  Qed.
+End Stray.
